@@ -304,6 +304,7 @@ func (e *Exclusive) call(c exclusiveConfig) <-chan *ExclusiveOutcome {
 						item.complete = true
 						item.running = false
 						item.cond.Broadcast()
+						verifAt("excl.resolve.bcast", e, 0)
 						item.mutex.Unlock()
 					})
 				}
@@ -325,6 +326,7 @@ func (e *Exclusive) call(c exclusiveConfig) <-chan *ExclusiveOutcome {
 			e.mutex.Unlock()
 		}
 		nextItem.cond.Broadcast()
+		verifAt("excl.run.next.bcast", e, 0)
 		nextItem.mutex.Unlock()
 	}()
 
